@@ -1,4 +1,6 @@
 import Mav.Proofs.Progress
+import Mav.Proofs.Inversion
+import Mav.Props.C01
 /-
   C05 — the frame reader is total, makes progress and resynchronises. Property theorems only.
   The model is the *flat* semantics (bytes and positioned one-shot transport errors; end of list = EOF).
@@ -6,7 +8,7 @@ import Mav.Proofs.Progress
   real bufio-based reader and compared with this flat model) — see DESIGN.md, C05 `partial`.
 -/
 namespace Mav.C05
-open Mav
+open Mav Spec
 
 /-- **C05 (totality).** `readOne` is a total function whose result is a frame, a non-fatal parse error or the
     transport's own error; the `panic` outcome only arises from the dialect gate (excluded by C04 `decode_total`
@@ -59,5 +61,113 @@ theorem readAll_terminates (cfg : RCfg) (st : RState) (s : Stream) (fuel : Nat) 
           | none => simp [hl] at this
           | some x => simp [hl] at this ⊢; exact this.1
         · simp; omega
+
+/-- **C05 (frames correspond to consumed bytes).** Without key and dialect, whenever a call returns a frame, the frame is
+    well-formed and the items consumed by that call are exactly the frame's spec bytes — nothing more, nothing less;
+    the reader state is untouched. (Converse of `C01.read_marshal`.) -/
+theorem frame_matches_consumed (H : Bytes → Bytes) (st st' : RState) (s rest : Stream) (f : Frame)
+    (h : readOne (C01.plainCfg H) st s = (.frame f, rest, st')) :
+    WF f ∧ s = bytesToItems (specBytes f) ++ rest ∧ st' = st := by
+  unfold readOne readByte at h
+  cases s with
+  | nil => simp at h
+  | cons x r =>
+    cases x with
+    | e k => simp at h
+    | b m =>
+      simp only at h
+      split at h
+      · rename_i hm
+        split at h
+        · simp at h
+        · rename_i g s1 hu
+          obtain ⟨hwf, hs⟩ := unmarshalV1_ok _ _ _ hu
+          simp [sigGate, C01.plainCfg, dialectGate] at h
+          obtain ⟨hf, hr, hst⟩ := h
+          subst hf hr hst
+          refine ⟨hwf, ?_, rfl⟩
+          rw [hs]
+          have : specBytes (.v1 g) = m :: (specBytes (.v1 g)).drop 1 := by
+            obtain ⟨seq, sys, comp, msg, crc⟩ := g
+            cases msg with
+            | raw id p => simp [specBytes, v1Bytes, hm, Gen.v1MagicByte]
+            | dec id v => simp [WF, wfb] at hwf
+          rw [this]; simp
+      · split at h
+        · rename_i hm1 hm
+          split at h
+          · simp at h
+          · rename_i g s1 hu
+            obtain ⟨hwf, hs⟩ := unmarshalV2_ok _ _ _ hu
+            simp [sigGate, C01.plainCfg, dialectGate] at h
+            obtain ⟨hf, hr, hst⟩ := h
+            subst hf hr hst
+            refine ⟨hwf, ?_, rfl⟩
+            rw [hs]
+            have : specBytes (.v2 g) = m :: (specBytes (.v2 g)).drop 1 := by
+              obtain ⟨ic, c, seq, sys, comp, msg, crc, link, ts, sig⟩ := g
+              cases msg with
+              | raw id p => simp [specBytes, v2Bytes, hm, Gen.v2MagicByte]
+              | dec id v => simp [WF, wfb] at hwf
+            rw [this]; simp
+        · simp at h
+
+/-- **C05 (valid streams yield every frame).** A stream made of well-formed frames, each preceded by junk bytes that are
+    not frame markers, yields — in order — one `badMagic` parse error per junk byte and then the frame, for every frame,
+    and finally EOF. Unbounded in the number of frames and in the amount of junk. -/
+def junkErrs (j : Bytes) : List RRes := j.map (fun b => RRes.perr (.badMagic b))
+
+def mkStream : List (Bytes × Frame) → Bytes
+  | [] => []
+  | (j, f) :: r => j ++ specBytes f ++ mkStream r
+
+def expected : List (Bytes × Frame) → List RRes
+  | [] => [.terr .eof]
+  | (j, f) :: r => junkErrs j ++ [.frame f] ++ expected r
+
+theorem readAll_junk (H : Bytes → Bytes) (j : Bytes) (hj : ∀ b ∈ j, b ≠ Gen.v1MagicByte ∧ b ≠ Gen.v2MagicByte)
+    (rest : Stream) (st : RState) (fuel : Nat) :
+    readAll (C01.plainCfg H) (j.length + fuel) st (bytesToItems j ++ rest) =
+      junkErrs j ++ readAll (C01.plainCfg H) fuel st rest := by
+  induction j with
+  | nil => simp [junkErrs]
+  | cons b r ih =>
+    have hb := hj b (by simp)
+    have hr : ∀ x ∈ r, x ≠ Gen.v1MagicByte ∧ x ≠ Gen.v2MagicByte := fun x hx => hj x (by simp [hx])
+    have : (b :: r).length + fuel = (r.length + fuel) + 1 := by simp; omega
+    rw [this]
+    simp only [bytesToItems_cons, List.cons_append, readAll, readOne, readByte, hb.1, hb.2, if_false]
+    simp [junkErrs] at ih ⊢
+    exact ih hr
+
+theorem resync (H : Bytes → Bytes) (l : List (Bytes × Frame))
+    (hl : ∀ jf ∈ l, WF jf.2 ∧ ∀ b ∈ jf.1, b ≠ Gen.v1MagicByte ∧ b ≠ Gen.v2MagicByte) (st : RState)
+    (fuel : Nat) (hfuel : (mkStream l).length < fuel) :
+    readAll (C01.plainCfg H) fuel st (bytesToItems (mkStream l)) = expected l := by
+  induction l generalizing fuel with
+  | nil =>
+    cases fuel with
+    | zero => omega
+    | succ n => simp [mkStream, expected, readAll, readOne, readByte]
+  | cons jf r ih =>
+    obtain ⟨j, f⟩ := jf
+    have h0 := hl (j, f) (by simp)
+    have hr : ∀ x ∈ r, WF x.2 ∧ ∀ b ∈ x.1, b ≠ Gen.v1MagicByte ∧ b ≠ Gen.v2MagicByte :=
+      fun x hx => hl x (List.mem_cons_of_mem _ hx)
+    have hpos : 1 ≤ (specBytes f).length := by
+      have hw := h0.1
+      cases f with
+      | v1 g => cases hm : g.msg <;> simp [specBytes, v1Bytes, hm, WF, wfb] at hw ⊢
+      | v2 g => cases hm : g.msg <;> simp [specBytes, v2Bytes, hm, WF, wfb] at hw ⊢
+    simp only [mkStream, List.length_append] at hfuel
+    obtain ⟨fuel2, hf2⟩ : ∃ k, fuel = j.length + (k + 1) := ⟨fuel - j.length - 1, by omega⟩
+    subst hf2
+    simp only [mkStream, bytesToItems_append, List.append_assoc]
+    rw [readAll_junk H j h0.2]
+    simp only [expected, List.append_assoc]
+    congr 1
+    rw [readAll, C01.read_marshal H f h0.1]
+    simp only [List.singleton_append, List.cons.injEq, true_and]
+    exact ih hr fuel2 (by omega)
 
 end Mav.C05
